@@ -2,7 +2,7 @@
 import os, re, shutil
 import cas_script, common, extract, libgen, oracle_lib, mpirun, synthlib
 
-LEAN_MODULE = ["ESRVerif.Props.C03", "ESRVerif.Props.C03b"]
+LEAN_MODULE = ["ESRVerif.Props.C03", "ESRVerif.Props.C03b", "ESRVerif.Props.C03c"]
 LEVEL = "other"
 LEVEL_TEXT = ("Partial proof. Proved in Lean for libraries of any size: first-occurrence indexing gives a duplicate-free unique list and a total match "
               "that points at the function's own string; get_match_indexes finds the first occurrence of every rewritten tree's original; the chain "
@@ -12,13 +12,20 @@ LEVEL_TEXT = ("Partial proof. Proved in Lean for libraries of any size: first-oc
               "sympy_simplify with in-place writes, add_inv_subs, step (3), the round files) together with duplicate_checker.main around it (extra trees "
               "inherit their original's string, the round files are re-read and appended per function): doSympy_sound shows that if every CAS call is "
               "sound (OracleSound) then after ANY number of rounds every function is sound w.r.t. its final unique and the chain assembled from the "
-              "round files; round_files_recombine, files_same_length, extras_inherit_original cover the file bookkeeping. Termination of the loops is "
+              "round files; round_files_recombine, files_same_length, extras_inherit_original cover the file bookkeeping. The driver is also modelled on "
+              "P RANKS (Props/C03c: each rank runs the CAS on its split_idx block of the uniques, make_changes - with the index arithmetic read from "
+              "today's source - splices the blocks back): casCallRanks_eq, roundRanks_eq_round, doSympyRanks_eq_doSympy show that for a per-item CAS pass "
+              "(hypothesis PerItem = C13's hpure) the run on any P >= 1 ranks, incl. more ranks than items, IS the one-rank run; doSympyRanks_sound "
+              "transports doSympy_sound to any rank count, library_files_rank_independent says all library/round files are the same lists for all P, "
+              "perItem_needed shows the hypothesis cannot be dropped. Termination of the loops is "
               "not claimed. NOT proved (hypotheses StepSound/OracleSound): that sympy's subs/expand/factor/equals inside sympy_simplify and "
               "check_results produce sound rewrites. That part is checked on every run by an independent numeric oracle on every row of real libraries "
               "(shipped bases and PRNG bases through the verification hook) and on hand-built libraries with deliberately wrong merges.")
 TECHNIQUE = ("Lean 4 proof of the merge bookkeeping and of the do_sympy/duplicate_checker driver under a named hypothesis on the CAS steps; the driver model is "
              "tied to the code by running the REAL duplicate_checker.main/do_sympy under a PRNG-scripted CAS whose every answer is sound by construction "
-             "(hidden exact denotations over Z_p) and comparing every file with the model; numeric conformance oracle on every library row")
+             "(hidden exact denotations over Z_p) and comparing every file with the model - on one rank with a whole-list scripted sympy_simplify, and on "
+             "1, 2, 3, 5 and more-ranks-than-functions ranks (MPI stand-in) with a block-wise scripted sympy_simplify that hands its block to the REAL make_changes, "
+             "compared with the P-rank model and with the one-rank model; numeric conformance oracle on every library row")
 RULE = ("one case = one row of a generated library checked by the oracle (f(x; p(theta)) = u(x; theta) at generic points, or nan with fewer parameters), or one "
         "function of a scripted-CAS run checked exactly against the hidden denotations; non-trivial = the row has a non-empty chain or is marked "
         "unrecoverable / the scripted run merged functions and recorded chains; distinct by (basis, complexity, row) or (script)")
@@ -27,10 +34,18 @@ TRUSTED = ["hand model ESRVerif/Model/Library.lean of get_unique_indexes/get_mat
            "the do_sympy driver + duplicate_checker.main bookkeeping (tied by correspondence on PRNG scripts: returned strings, round count, every round "
            "file, all_equations/unique_equations/matches/inv_subs compared with the model)",
            "harness/oracle_lib.py (sympy parsing + numpy evaluation of library rows at generic points, finite values only)",
-           "harness/cas_script.py (script generator whose CAS answers are sound by construction; exact evaluation of the hidden denotations mod 10007)"]
+           "harness/cas_script.py (script generator whose CAS answers are sound by construction; exact evaluation of the hidden denotations mod 10007; "
+           "its block-wise stand-in for sympy_simplify repeats the slicing statements simplifier.py 290-298 by hand before calling the real make_changes)",
+           "hand model of the P-rank call in ESRVerif/Model/Library.lean section Ranks (rankBlock/casCallRanks: ONE block-wise CAS pass + ONE make_changes per "
+           "sympy_simplify call; make_changes itself is ESRVerif/Model/Gather.makeChanges with the extracted arithmetic, proved against split_idx in Props/C13b)",
+           "harness/mpi_standin + harness/mpirun.py (ranks = OS processes, collectives matched by a hub) instead of a real MPI library"]
 ASSUMPTIONS = ["StepSound/OracleSound: each sympy rewrite recorded by sympy_simplify is a sound (function, unique, map) triple and chains are only appended to - sampled, not proved",
                "generic points: x in (0.4,2.5), parameters in +-(0.4,2.5); rows never finite at any sampled point are counted unverifiable",
-               "scripted-CAS runs are single rank, complexity label 1-2 (check_results not reached), generator/initial_sympify/sympy_simplify/expand_or_factor "
+               "PerItem: the CAS answer for a unique depends on that unique alone. True of the scripted CAS by construction (table lookup by name) and of the "
+               "substitution passes of sympy_simplify; its two gathered 'is the sign-flipped / permuted form already in all_fun' passes (simplifier.py 516-573, "
+               "592-642) look the whole broadcast list up and sit between TWO make_changes calls - that structure is not in the model, so rank-independence of "
+               "those passes rests on C13's runs of real libraries on several ranks",
+               "scripted-CAS runs: complexity label 1-2 (check_results not reached), generator/initial_sympify/sympy_simplify/expand_or_factor "
                "replaced by the script; all but the first 24 (quick) / 300 (thorough) scripts run main's two shell commands per file (sed, mv) in-process",
                "termination of the two fixed-point loops is not claimed (the model has fuel and reports whether the exit condition was reached; every run reached it)"]
 MODELLED = ["utils.py:get_unique_indexes", "utils.py:get_match_indexes", "duplicate_checker.py:main", "simplifier.py:do_sympy", "simplifier.py:check_results",
@@ -222,6 +237,89 @@ def _corr_driver_frozen(ctx, n):
     return stats
 
 
+RANKS_WORKER = os.path.join(common.HARNESS, "workers", "c03_script_ranks.py")
+
+
+def _launch_ranks(ctx, scripts, P, tag):
+    """the worker on P ranks over `scripts` -> (mpirun result, per-rank records or None)"""
+    import json
+    d = os.path.join(ctx.tmp, "c03_ranks", tag)
+    shutil.rmtree(d, ignore_errors=True)
+    os.makedirs(d)
+    jf = os.path.join(d, "scripts.json")
+    json.dump(scripts, open(jf, "w"))
+    pre = os.path.join(d, "out")
+    r = mpirun.run(P, [RANKS_WORKER, jf, os.path.join(d, "w"), pre], timeout=600, env_extra=ctx.env(), cwd=ctx.stage, python=common.PY)
+    outs = []
+    for q in range(P):
+        try:
+            outs.append(json.load(open("%s.%d.json" % (pre, q))))
+        except Exception:
+            outs.append(None)
+    shutil.rmtree(r.get("tmp", ""), ignore_errors=True)
+    shutil.rmtree(os.path.join(d, "w"), ignore_errors=True)
+    return r, outs
+
+
+def _corr_driver_ranks(ctx, n):
+    """The REAL duplicate_checker.main + do_sympy + make_changes on P ranks (P in 1, 2, 3, 5 and one P above the number of
+    functions) under the block-wise scripted CAS, against `dupMainRanks P` of the model AND against the P = 1 model
+    (Props/C03c: doSympyRanks_eq_doSympy, library_files_rank_independent); every rank must return the same strings and round
+    count; C03's statement is recomputed on the files of every run."""
+    import random
+    from concurrent.futures import ThreadPoolExecutor
+    scripts = [cas_script.make_script(random.Random(ctx.rng.getrandbits(48))) for _ in range(n)]
+    small = [k for k, sc in enumerate(scripts) if len(sc["gen"]) <= 6]
+    pbig = 1 + max([len(scripts[k]["gen"]) for k in small] + [1])
+    plan = [(1, list(range(n))), (2, list(range(n))), (3, list(range(n))), (5, list(range(n))), (pbig, small)]
+    plan = [(P, ks) for j, (P, ks) in enumerate(plan) if ks and P not in [q for q, _ in plan[:j]]]
+    stats = dict(scripts=n, ranks=[P for P, _ in plan], runs=0, mismatches=0, mismatch_vs_one_rank_model=0, property_failures=0, incomplete=0,
+                 ranks_disagree=0, surplus_rank_calls=0, empty_block_calls=0, calls_split_over_several_ranks=0, calls=0, merges=0, rows_with_chain=0)
+    with ThreadPoolExecutor(len(plan)) as ex:
+        res = list(ex.map(lambda pk: _launch_ranks(ctx, [scripts[k] for k in pk[1]], pk[0], "P%d" % pk[0]), plan))
+    ops, want = [], []
+    for (P, ks), (r, outs) in zip(plan, res):
+        if not r["ok"] or any(o is None for o in outs):
+            stats["incomplete"] += 1
+            ctx.disagree("corr:do_sympy-ranks", "the scripted run of %d libraries on %d ranks did not complete: %s %s" % (len(ks), P, r.get("error"), r.get("exit_codes")))
+            continue
+        for j, k in enumerate(ks):
+            sc, rec = scripts[k], outs[0][j]
+            stats["runs"] += 1
+            for kind, detail in rec["bad"][:1]:
+                stats["property_failures"] += 1
+                if stats["property_failures"] <= 6:
+                    ctx.fail("scripted-cas-ranks:%s" % kind, "real duplicate_checker.main/do_sympy/make_changes on %d ranks under a sound per-item scripted CAS "
+                             "left an unsound library: %s; functions %r, round tables %r" % (P, detail, sc["gen"], sc["tables"]), dict(kind="script_ranks", script=sc, P=P))
+            if any(o[j]["odd"] for o in outs) or not rec["format_ok"] or rec["stray"]:
+                ctx.disagree("corr:do_sympy-ranks", "P=%d: sympy object passed with the wrong string, or a round file not in csv format / beyond the returned count" % P)
+            if any(o[j]["ret"] != rec["ret"] or o[j]["raised"] != rec["raised"] for o in outs[1:]):
+                stats["ranks_disagree"] += 1
+                ctx.disagree("corr:do_sympy-ranks", "P=%d [script seed %d]: the ranks return different strings / round counts: %r" % (P, sc["seed"], [o[j]["ret"] for o in outs][:3]))
+            for q, o in enumerate(outs):
+                stats["calls"] += len(o[j]["blocks"])
+                stats["empty_block_calls"] += sum(1 for b in o[j]["blocks"] if b == 0)
+            ncall = min(len(o[j]["blocks"]) for o in outs)
+            stats["calls_split_over_several_ranks"] += sum(1 for c in range(ncall) if sum(1 for o in outs if o[j]["blocks"][c] > 0) >= 2)
+            stats["surplus_rank_calls"] += sum(1 for b in outs[-1][j]["blocks"] if b == 0) if P > 1 else 0
+            ml = cas_script.model_line(sc, rec["nuniq"])[len("lib-main "):]
+            ops.append("lib-main-ranks %d %s" % (P, ml)); want.append((P, sc, rec["line"], "model on %d ranks" % P))
+            ops.append("lib-main-ranks 1 %s" % ml); want.append((P, sc, rec["line"], "one-rank model"))
+            if rec["line"].startswith("ok "):
+                f = dict(x.split("=", 1) for x in rec["line"].split(" ")[1:])
+                stats["merges"] += len(set(f["alleq"].split(","))) - len(f["uniq"].split(","))
+                stats["rows_with_chain"] += sum(1 for x in f["inv"].split(";") if x not in ("E", "_"))
+                ctx.case(("script-ranks", k, P, ctx.seed), nontrivial=P >= 2 and f["inv"].strip("E;_") != "", n=len(sc["gen"]))
+    outm = common.model(ops) if ops else []
+    for (P, sc, a, what), b in zip(want, outm):
+        if a != b:
+            stats["mismatches"] += 1
+            stats["mismatch_vs_one_rank_model"] += what == "one-rank model"
+            if stats["mismatches"] <= 6:
+                ctx.disagree("corr:do_sympy-ranks", "real run on %d ranks vs %s: %s [script seed %d, %d functions]" % (P, what, cas_script.first_difference(a, b), sc["seed"], len(sc["gen"])))
+    return stats
+
+
 def _lib_rows(ctx, runname, nmax, P=1, basis=None, tag=""):
     r = libgen.generate(ctx, runname, list(range(1, nmax + 1)), P=P, basis=basis, copy="c03_%s%s_P%d" % (runname, tag, P), timeout=1500)
     rp = dict(kind="library", runname=runname, nmax=nmax, P=P, basis=basis)
@@ -246,9 +344,10 @@ def run(ctx):
     ctx.extra["source_drift"] = drift
     n, b = _corr_index(ctx, 3000 if deep else 600)
     drv = _corr_driver(ctx, 5000 if deep else 320)
-    ctx.extra["corr_obligations"] = 2
-    ctx.extra["corr_discharged"] = int(b == 0) + int(drv["mismatches"] == 0)
-    ctx.extra["correspondence"] = dict(index_ops=n, mismatches=b, do_sympy_driver=drv)
+    rk = _corr_driver_ranks(ctx, 400 if deep else 48)
+    ctx.extra["corr_obligations"] = 3
+    ctx.extra["corr_discharged"] = int(b == 0) + int(drv["mismatches"] == 0) + int(rk["mismatches"] == 0 and rk["incomplete"] == 0 and rk["ranks_disagree"] == 0)
+    ctx.extra["correspondence"] = dict(index_ops=n, mismatches=b, do_sympy_driver=drv, do_sympy_driver_ranks=rk)
     # the driver already fails on concrete inputs: the verdict is fixed, and generating real libraries with a broken driver
     # can take hours (chains growing without bound make check_results crawl) - stop here
     kf = common.known_findings(ctx.pid)
@@ -280,6 +379,14 @@ def replay(ctx, data):
         for kind, detail in bad:
             print("%s: %s" % (kind, detail))
         return not bad
+    if rp.get("kind") == "script_ranks":
+        r, outs = _launch_ranks(ctx, [rp["script"]], rp["P"], "replay")
+        if not r["ok"] or outs[0] is None:
+            print("the run on %d ranks did not complete: %s" % (rp["P"], r.get("error")))
+            return False
+        for kind, detail in outs[0][0]["bad"]:
+            print("%s: %s" % (kind, detail))
+        return not outs[0][0]["bad"]
     if rp.get("kind") == "check_results":
         import props.c13 as c13
         return c13.replay(ctx, data)
